@@ -258,6 +258,15 @@ def skip_fixed(decoder, writer_schema, named_schemas=None):
     decoder.read_fixed(size)
 
 
+def _checked_index(index, choices):
+    """Reject an enum/union index that the writer schema cannot have produced"""
+    if not 0 <= index < len(choices):
+        raise ValueError(
+            f"index {index} is out of range for the {len(choices)} choices in {choices}"
+        )
+    return index
+
+
 def read_enum(
     decoder,
     writer_schema,
@@ -265,7 +274,7 @@ def read_enum(
     reader_schema=None,
     options={},
 ):
-    symbol = writer_schema["symbols"][decoder.read_enum()]
+    symbol = writer_schema["symbols"][_checked_index(decoder.read_enum(), writer_schema["symbols"])]
     if reader_schema and symbol not in reader_schema["symbols"]:
         default = reader_schema.get("default")
         if default:
@@ -278,7 +287,7 @@ def read_enum(
 
 
 def skip_enum(decoder, writer_schema, named_schemas):
-    decoder.read_enum()
+    _checked_index(decoder.read_enum(), writer_schema["symbols"])
 
 
 def read_array(
@@ -398,7 +407,7 @@ def read_union(
     options={},
 ):
     # schema resolution
-    index = decoder.read_index()
+    index = _checked_index(decoder.read_index(), writer_schema)
     idx_schema = writer_schema[index]
     idx_reader_schema = None
 
@@ -473,7 +482,7 @@ def read_union(
 
 def skip_union(decoder, writer_schema, named_schemas):
     # schema resolution
-    index = decoder.read_index()
+    index = _checked_index(decoder.read_index(), writer_schema)
     skip_data(decoder, writer_schema[index], named_schemas)
 
 
